@@ -8,7 +8,10 @@
 
 package amf0
 
-import "math"
+import (
+	"math"
+	"sync"
+)
 
 func prim_sameslice(a, b []byte) bool {
 	return len(a) == len(b) && (len(a) == 0 || &a[0] == &b[0])
@@ -32,6 +35,14 @@ func prim_fresh(a []byte) bool { return true } // "allocated during the call"; n
 
 //@ iface Amf0.Size ensures C05
 func iface_Size(ret0 int) bool { return ret0 >= 1 && ret0 <= 1<<41 }
+
+// Size() is a function of the value's state; a successful decode leaves a value that is no longer than its input
+// (every implementation in this package is checked against these: scalars unboundedly, containers in the bounded lemmas)
+//@ iface Amf0.Size pure
+//@ iface Amf0.Size assigns nothing
+//@ iface Amf0.UnmarshalBinary assigns v.*
+//@ iface Amf0.UnmarshalBinary ensures C05 C07
+func iface_Unmarshal(v Amf0, data []byte, ret0 error) bool { return ret0 != nil || v.Size() <= len(data) }
 
 // ---------- 1.3.1 UTF-8: U16 length, then the bytes ----------
 
@@ -202,7 +213,32 @@ func ens_discovery(p []byte, a Amf0, err error) bool {
 	if len(p) < 1 || !spec_supportedMarker(p[0]) {
 		return err != nil && a == nil
 	}
-	return err == nil && a != nil && uint8(a.amf0Marker()) == p[0]
+	return err == nil && a != nil && spec_allocated(a) && uint8(a.amf0Marker()) == p[0]
+}
+
+// the value behind the interface is a real (non-nil) object of one of the package's types
+func spec_allocated(a Amf0) bool {
+	switch x := a.(type) {
+	case *Number:
+		return x != nil
+	case *Boolean:
+		return x != nil
+	case *String:
+		return x != nil
+	case *Object:
+		return x != nil
+	case *null:
+		return x != nil
+	case *undefined:
+		return x != nil
+	case *EcmaArray:
+		return x != nil
+	case *objectEOF:
+		return x != nil
+	case *StrictArray:
+		return x != nil
+	}
+	return false
 }
 
 // ---------- C07 ----------
@@ -215,3 +251,226 @@ func ens_discovery(p []byte, a Amf0, err error) bool {
 //@ safe (*Boolean).UnmarshalBinary C07
 //@ safe (*singleMarkerObject).UnmarshalBinary C07
 //@ safe (*objectEOF).UnmarshalBinary C07
+//@ requires (*objectBase).unmarshal
+func req_objectBaseUnmarshal(v *objectBase) bool { return !prim_held(&v.lock) }
+
+//@ requires (*Object).UnmarshalBinary
+func req_ObjectUnmarshal(v *Object) bool { return !prim_held(&v.lock) }
+
+//@ requires (*EcmaArray).UnmarshalBinary
+func req_EcmaUnmarshal(v *EcmaArray) bool { return !prim_held(&v.lock) }
+
+//@ requires (*StrictArray).UnmarshalBinary
+func req_StrictUnmarshal(v *StrictArray) bool { return !prim_held(&v.lock) }
+
+func prim_held(mu *sync.Mutex) bool { return false }
+
+//@ assigns (*objectBase).unmarshal v.*, v.properties[*], any(property)
+//@ assigns (*Object).UnmarshalBinary v.*, v.objectBase.properties[*], any(property)
+//@ assigns (*EcmaArray).UnmarshalBinary v.*, v.objectBase.properties[*], any(property)
+//@ assigns (*StrictArray).UnmarshalBinary v.*, v.objectBase.properties[*], any(property)
+
+// both decoding loops: the property lock is free between iterations, and every iteration consumes input
+//@ invariant (*objectBase).unmarshal 0
+func inv_unmarshal0(v *objectBase) bool { return !prim_held(&v.lock) }
+
+//@ invariant (*objectBase).unmarshal 1
+func inv_unmarshal1(v *objectBase) bool { return !prim_held(&v.lock) }
+
+//@ decreases (*objectBase).unmarshal 0
+func dec_unmarshal0(p []byte) int { return len(p) }
+
+//@ decreases (*objectBase).unmarshal 1
+func dec_unmarshal1(p []byte) int { return len(p) }
+
+//@ safe (*objectBase).unmarshal C07
+//@ safe (*Object).UnmarshalBinary C07
+//@ safe (*EcmaArray).UnmarshalBinary C07
+//@ safe (*StrictArray).UnmarshalBinary C07
+
+// ---------- containers: bounded stand-ins ----------
+// Trees of fixed shape with ARBITRARY scalar contents and key bytes; callees are inlined and loops unrolled: bounded,
+// not counted as proofs. AMF0 2.5 (object: 03, (UTF-8 name, value)*, 00 00 09), 2.10 (ECMA array: 08, U32 count,
+// pairs, 00 00 09), 2.12 (strict array: 0A, U32 count, count values).
+
+func prim_havoc(b []byte) {} // the buffer's contents become arbitrary (engine primitive)
+
+func spec_anyKey(n int) string {
+	b := make([]byte, n)
+	prim_havoc(b)
+	return string(b)
+}
+
+func spec_isNumber(a Amf0, bits uint64) bool {
+	n, ok := a.(*Number)
+	return ok && math.Float64bits(float64(*n)) == bits
+}
+
+func spec_isBoolean(a Amf0, b bool) bool {
+	n, ok := a.(*Boolean)
+	return ok && bool(*n) == b
+}
+
+// object {k0: Number, k1: Boolean}: exact layout, size, round trip with keys in order, re-marshal
+//@ bounded lemma_C05_objectRoundtrip_2 4
+//@ lemma C05.object.roundtrip.bounded C06.object.layout.bounded
+func lemma_C05_objectRoundtrip_2(bits uint64, flag bool) bool {
+	k0, k1 := spec_anyKey(1), spec_anyKey(3)
+	o := NewObject()
+	o.Set(k0, NewNumber(math.Float64frombits(bits)))
+	o.Set(k1, NewBoolean(flag))
+	b, err := o.MarshalBinary()
+	if err != nil || len(b) != o.Size() || len(b) != 1+(2+1+9)+(2+3+2)+3 {
+		return false
+	}
+	fb := byte(0)
+	if flag {
+		fb = 1
+	}
+	if b[0] != 3 || b[1] != 0 || b[2] != 1 || b[3] != k0[0] || b[4] != 0 || spec_be64(b[5:]) != bits {
+		return false
+	}
+	if b[13] != 0 || b[14] != 3 || string(b[15:18]) != k1 || b[18] != 1 || b[19] != fb || b[20] != 0 || b[21] != 0 || b[22] != 9 {
+		return false
+	}
+	q := NewObject()
+	if err = q.UnmarshalBinary(b); err != nil {
+		return false
+	}
+	if q.Size() != len(b) || len(q.properties) != 2 || string(q.properties[0].key) != k0 || string(q.properties[1].key) != k1 {
+		return false
+	}
+	if !spec_isNumber(q.properties[0].value, bits) || !spec_isBoolean(q.properties[1].value, flag) {
+		return false
+	}
+	b2, err := q.MarshalBinary()
+	return err == nil && prim_eqbytes(b2, b)
+}
+
+// a repeated name in a decodable byte string: Size() afterwards is what was consumed, and re-marshalling reproduces it
+//@ bounded lemma_C05_objectRepeatedKey 4
+//@ lemma C05.object.size-consumed.repeated-key
+func lemma_C05_objectRepeatedKey(k byte) bool {
+	b := []byte{3, 0, 1, k, 5, 0, 1, k, 6, 0, 0, 9}
+	q := NewObject()
+	if err := q.UnmarshalBinary(b); err != nil {
+		return false
+	}
+	b2, err := q.MarshalBinary()
+	return q.Size() == len(b) && err == nil && prim_eqbytes(b2, b)
+}
+
+// trailing bytes after the end marker are not consumed and not counted
+//@ bounded lemma_C05_objectTrailing 4
+//@ lemma C05.object.size-consumed.trailing
+func lemma_C05_objectTrailing(k, t0, t1 byte, bits uint64) bool {
+	b := []byte{3, 0, 1, k, 0, byte(bits >> 56), byte(bits >> 48), byte(bits >> 40), byte(bits >> 32), byte(bits >> 24), byte(bits >> 16), byte(bits >> 8), byte(bits), 0, 0, 9, t0, t1}
+	q := NewObject()
+	if err := q.UnmarshalBinary(b); err != nil {
+		return false
+	}
+	return q.Size() == len(b)-2 && len(q.properties) == 1 && spec_isNumber(q.properties[0].value, bits)
+}
+
+// ECMA array {k: String}: marker 08, 32-bit count, pairs, end marker; round trip
+//@ bounded lemma_C05_ecmaRoundtrip 4
+//@ lemma C05.ecma.roundtrip.bounded C06.ecma.layout.bounded
+func lemma_C05_ecmaRoundtrip(count uint32) bool {
+	k, s := spec_anyKey(2), spec_anyKey(3)
+	o := NewEcmaArray()
+	o.count = count
+	o.Set(k, NewString(s))
+	b, err := o.MarshalBinary()
+	if err != nil || len(b) != o.Size() || len(b) != 1+4+(2+2+1+2+3)+3 {
+		return false
+	}
+	if b[0] != 8 || uint32(b[1])<<24|uint32(b[2])<<16|uint32(b[3])<<8|uint32(b[4]) != count {
+		return false
+	}
+	if b[5] != 0 || b[6] != 2 || string(b[7:9]) != k || b[9] != 2 || b[10] != 0 || b[11] != 3 || string(b[12:15]) != s || b[15] != 0 || b[16] != 0 || b[17] != 9 {
+		return false
+	}
+	q := NewEcmaArray()
+	if err = q.UnmarshalBinary(b); err != nil {
+		return false
+	}
+	if q.Size() != len(b) || q.count != count || len(q.properties) != 1 || string(q.properties[0].key) != k {
+		return false
+	}
+	v, ok := q.properties[0].value.(*String)
+	if !ok || string(*v) != s {
+		return false
+	}
+	b2, err := q.MarshalBinary()
+	return err == nil && prim_eqbytes(b2, b)
+}
+
+// nesting: object {k0: object {k1: null}, k2: undefined}
+//@ bounded lemma_C05_nestedRoundtrip 4
+//@ lemma C05.nested.roundtrip.bounded C06.nested.layout.bounded
+func lemma_C05_nestedRoundtrip() bool {
+	k0, k1, k2 := spec_anyKey(1), spec_anyKey(2), spec_anyKey(1)
+	in := NewObject()
+	in.Set(k1, NewNull())
+	o := NewObject()
+	o.Set(k0, in)
+	o.Set(k2, NewUndefined())
+	if k0 == k2 {
+		return true
+	}
+	b, err := o.MarshalBinary()
+	if err != nil || len(b) != o.Size() || len(b) != 1+(2+1+(1+(2+2+1)+3))+(2+1+1)+3 {
+		return false
+	}
+	if b[0] != 3 || b[1] != 0 || b[2] != 1 || b[3] != k0[0] || b[4] != 3 || b[5] != 0 || b[6] != 2 || string(b[7:9]) != k1 || b[9] != 5 || b[10] != 0 || b[11] != 0 || b[12] != 9 {
+		return false
+	}
+	if b[13] != 0 || b[14] != 1 || b[15] != k2[0] || b[16] != 6 || b[17] != 0 || b[18] != 0 || b[19] != 9 {
+		return false
+	}
+	q := NewObject()
+	if err = q.UnmarshalBinary(b); err != nil {
+		return false
+	}
+	if q.Size() != len(b) || len(q.properties) != 2 || string(q.properties[0].key) != k0 || string(q.properties[1].key) != k2 {
+		return false
+	}
+	qi, ok := q.properties[0].value.(*Object)
+	if !ok || len(qi.properties) != 1 || string(qi.properties[0].key) != k1 || qi.properties[0].value.amf0Marker() != markerNull {
+		return false
+	}
+	b2, err := q.MarshalBinary()
+	return err == nil && prim_eqbytes(b2, b)
+}
+
+// strict array per AMF0 2.12: 0A, U32 count, then count VALUES (no names): [Number, Boolean] as an independent
+// encoder writes it is decoded to those two values, and Size() is what was consumed
+//@ bounded lemma_C06_strictSpecDecode 4
+//@ lemma C06.strict.spec-decode
+func lemma_C06_strictSpecDecode(flag byte) bool {
+	bits := uint64(0x3ff0000000000000) // 1.0
+	b := []byte{0x0a, 0, 0, 0, 2, 0, 0x3f, 0xf0, 0, 0, 0, 0, 0, 0, 1, flag}
+	q := NewStrictArray()
+	if err := q.UnmarshalBinary(b); err != nil {
+		return false
+	}
+	return q.Size() == len(b) && len(q.properties) == 2 && spec_isNumber(q.properties[0].value, bits) && spec_isBoolean(q.properties[1].value, flag != 0)
+}
+
+// a strict array built through the library's API round-trips through the library itself
+//@ bounded lemma_C05_strictRoundtrip 4
+//@ lemma C05.strict.roundtrip.bounded
+func lemma_C05_strictRoundtrip(bits uint64) bool {
+	k := spec_anyKey(1)
+	o := NewStrictArray()
+	o.Set(k, NewNumber(math.Float64frombits(bits)))
+	b, err := o.MarshalBinary()
+	if err != nil || len(b) != o.Size() {
+		return false
+	}
+	q := NewStrictArray()
+	if err = q.UnmarshalBinary(b); err != nil {
+		return false
+	}
+	return q.Size() == len(b) && len(q.properties) == 1 && spec_isNumber(q.properties[0].value, bits)
+}
